@@ -265,7 +265,7 @@ Print Assumptions generated_column_names_ci_refuted.
    the generated name itself is harmless: exact comparison handles it) *)
 Theorem generated_column_names_ci_partial : forall lower p cols n l n',
   (forall k, lower (gen_name p k) = gen_name p k) ->
-  (forall u k, col_user_names cols u -> lower u = gen_name p k -> u = gen_name p k) ->
+  (forall u k, (exists d b, In (d, b) cols /\ (b = Some u \/ d = DSingle (Some u))) -> lower u = gen_name p k -> u = gen_name p k) ->
   split_names p cols [] n = Some (l, n') ->
   forall x y k, In x (somes l) -> In y (somes l) -> x = gen_name p k -> lower y = lower x -> y = x.
 Proof. exact split_names_ci_partial. Qed.
